@@ -408,6 +408,8 @@ def same_key(k1: Any, k2: Any) -> bool:
         if not isinstance(k2, (str, AnyURI, UntypedAtomic)):
             return False
         return str(k1) == str(k2)
+    elif isinstance(k2, (str, AnyURI, UntypedAtomic)):
+        return False  # only k2 is string-like (an xs:untypedAtomic would be cast by ==)
     elif isinstance(k1, float) and math.isnan(k1):
         return isinstance(k2, float) and math.isnan(k2)
     elif isinstance(k1, AbstractQName) ^ isinstance(k2, AbstractQName):
